@@ -5,7 +5,7 @@
    working tree.  What ties the model to the code is the correspondence of harness/props/C20.py. *)
 From Coq Require Import List ZArith Bool.
 From PV Require Import lib.Sx lib.Str lib.Result model.Generated model.Detect spec.SpecDetect spec.SpecOwn
-  proofs.DetectFacts proofs.DetectOwnFacts.
+  proofs.DetectFacts proofs.DetectOwnFacts model.OwnWrite spec.SpecOwnNodes proofs.DetectNodeFacts proofs.DetectVttFacts.
 Import ListNotations.
 Open Scope Z_scope.
 
@@ -73,6 +73,40 @@ Theorem C20_own_output_scc : forall body, forallb scc_body_char body = true ->
   detect_format (scc_document body) = Ok (Some R_SCC).
 Proof. exact own_scc. Qed.
 Print Assumptions C20_own_output_scc.
+
+(* ---------------- sentence 2 FROM THE TEXT NODES (wave 7) ---------------- *)
+(* model/OwnWrite.v writes the document from the caption set (languages -> captions -> text / break / style nodes,
+   integer times): SRT with the merging of equal spans, strip / split / blank-line filter and the language separator;
+   MicroDVD with line ends and breaks as '|', strip and the trailing-'|' cleanup.  For EVERY caption set whose caption
+   texts carry no marker of a format probed earlier (spec/SpecOwnNodes.v) the document is detected as its own format:
+   no marker forms across nodes, lines, merged captions, languages, or by the writers' clean-up of the text. *)
+Theorem C20_own_nodes_srt : forall langs, srt_dom langs = true ->
+  detect_format (srt_write langs) = Ok (Some R_SRT).
+Proof. exact own_nodes_srt. Qed.
+Print Assumptions C20_own_nodes_srt.
+Theorem C20_own_nodes_mdvd : forall langs, mdvd_dom langs = true ->
+  detect_format (mdvd_write langs) = Ok (Some R_MDVD).
+Proof. exact own_nodes_mdvd. Qed.
+Print Assumptions C20_own_nodes_mdvd.
+
+(* WebVTT: no hypothesis on the text at all.  The writer escapes '<' and '&' in text, so every '<' of the document opens
+   one of <i> <u> <b> </i> </u> </b>; "</tt>" cannot occur (also not after lower-casing, nor through the "-->"
+   replacement applied to the accumulated cue text), and the document starts with the WEBVTT header. *)
+Theorem C20_own_nodes_vtt : forall langs, detect_format (vtt_write langs) = Ok (Some R_VTT).
+Proof. exact own_nodes_vtt. Qed.
+Print Assumptions C20_own_nodes_vtt.
+
+(* DFXP / SAMI (documents produced by bs4, not modelled): what detection needs of their skeleton.  A document that
+   contains the root element's closing tag is DFXP whatever else it contains; a document that opens with the <sami root
+   tag and carries neither "</tt>" (any case) nor "WEBVTT" is SAMI.  Stream F checks every real DFXP / SAMI output to be
+   such an instance. *)
+Theorem C20_own_output_dfxp_skeleton : forall pre post, detect_format (dfxp_document pre post) = Ok (Some R_DFXP).
+Proof. exact own_dfxp_skeleton. Qed.
+Print Assumptions C20_own_output_dfxp_skeleton.
+Theorem C20_own_output_sami_skeleton : forall rest, free before_sami (sami_document rest) = true ->
+  detect_format (sami_document rest) = Ok (Some R_SAMI).
+Proof. exact own_sami_skeleton. Qed.
+Print Assumptions C20_own_output_sami_skeleton.
 
 (* ---------------- history ---------------- *)
 (* record of the repaired defect (e1d5b58): the pinned SRT sniffer raised IndexError on "1".
@@ -149,4 +183,63 @@ Proof. vm_compute. repeat split. Qed.
 Example C20_example_own_needs_hypothesis :
   srt_cue_ok (lit "00:00:01,000 --> 00:00:02,000", lit "x</TT>") = false /\
   detect_format (srt_document [(lit "00:00:01,000 --> 00:00:02,000", lit "x</TT>")]) = Ok (Some R_DFXP).
+Proof. vm_compute. repeat split. Qed.
+
+(* the node-level theorems: satisfiable hypotheses, later formats' markers in the text, a merged pair of captions, two
+   languages; and the hypothesis is needed - "</t" and "t>" in two adjacent text nodes form the DFXP marker *)
+Example C20_example_own_nodes_srt :
+  let langs := [[mk_ocap 1000000 2000000 [OText (lit "WEB"); OStyle true true false false; OText (lit " VTT {1}{2}"); OBreak;
+                                          OText ([32; 10; 32; 10] ++ lit "Scenarist_SCC V1.0")];
+                 mk_ocap 1000000 2000000 [OText (lit "-->")]];
+                [mk_ocap (-5) 90000000000 [OText (lit "</t t>")]]] in
+  srt_dom langs = true /\
+  srt_write langs = lit "1
+00:00:01,000 --> 00:00:02,000
+WEB VTT {1}{2}
+Scenarist_SCC V1.0
+-->
+MULTI-LANGUAGE SRT
+1
+23:59:59,999 --> 01:00:00,000
+</t t>
+" /\ detect_format (srt_write langs) = Ok (Some R_SRT).
+Proof. vm_compute. repeat split. Qed.
+
+Example C20_example_own_nodes_mdvd :
+  let langs := [[]; [mk_ocap 0 39999 [OText (lit "a" ++ [13; 10] ++ lit "b" ++ [13]); OBreak; OText (lit "WEBVTT|")];
+                     mk_ocap 1000000 2000000 [OText (lit "<sami> </tt "); OStyle false true false false; OText (lit ">")]]] in
+  mdvd_dom langs = true /\
+  mdvd_write langs = lit "{0}{0}a|b||WEBVTT
+{25}{50}<sami> </tt >
+" /\ detect_format (mdvd_write langs) = Ok (Some R_MDVD).
+Proof. vm_compute. repeat split. Qed.
+
+Example C20_example_own_nodes_needs_hypothesis :
+  let langs := [[mk_ocap 0 1000000 [OText (lit "</t"); OText (lit "T>")]]] in
+  srt_dom langs = false /\ mdvd_dom langs = false /\
+  detect_format (srt_write langs) = Ok (Some R_DFXP) /\ detect_format (mdvd_write langs) = Ok (Some R_DFXP).
+Proof. vm_compute. repeat split. Qed.
+
+(* WebVTT from the nodes: the text carries every marker and the pieces the writer rewrites *)
+Example C20_example_own_nodes_vtt :
+  let langs := [[mk_ocap 3600000000 3601000000
+                   [OBreak; OText (lit "</tt> & --"); OText (lit "> <sami"); OStyle true true false true;
+                    OText []; OStyle false true false true; OBreak; OBreak]]] in
+  vtt_write langs = lit "WEBVTT
+
+01:00:00.000 --> 01:00:01.000
+&nbsp;
+&lt;/tt> &amp; --&gt; &lt;sami<i><b>&nbsp;</b></i>&nbsp;
+&nbsp;
+
+" /\ detect_format (vtt_write langs) = Ok (Some R_VTT) /\
+  detect_format (vtt_write []) = Ok (Some R_VTT) /\ vtt_write [[]; []] = lit "WEBVTT
+
+".
+Proof. vm_compute. repeat split. Qed.
+
+Example C20_example_skeletons :
+  detect_format (dfxp_document (lit "<tt><body>WEBVTT {1}{2}</body>") [10]) = Ok (Some R_DFXP) /\
+  free before_sami (sami_document (lit "><body>{1}{2} --></body></sami>")) = true /\
+  detect_format (sami_document (lit "><body>{1}{2} --></body></sami>")) = Ok (Some R_SAMI).
 Proof. vm_compute. repeat split. Qed.
